@@ -91,6 +91,8 @@ type XREnv struct {
 	Keys     []string // XRD connectionSecretKeys
 	Runner   composite.FunctionRunner
 	Recorder *Recorder
+	// Options are appended to the reconciler options (e.g. composite.WithWatchStarter).
+	Options []composite.ReconcilerOption
 }
 
 // XRGVKDefault is the XR kind used by the checks.
@@ -129,7 +131,7 @@ func (e *XREnv) Reconciler(c, uc client.Client) *composite.Reconciler {
 		composite.WithComposedResourceObserver(composite.NewExistingComposedResourceObserver(c, uc, fetcher)),
 		composite.WithCompositeConnectionDetailsFetcher(fetcher),
 	)
-	return composite.NewReconciler(c, uc, resource.CompositeKind(e.XRGVK),
+	return composite.NewReconciler(c, uc, resource.CompositeKind(e.XRGVK), append([]composite.ReconcilerOption{
 		composite.WithConnectionPublishers(composite.NewAPIFilteredSecretPublisher(c, d.GetConnectionSecretKeys())),
 		composite.WithCompositionSelector(composite.NewCompositionSelectorChain(
 			composite.NewEnforcedCompositionSelector(*d, e.Recorder),
@@ -143,7 +145,7 @@ func (e *XREnv) Reconciler(c, uc client.Client) *composite.Reconciler {
 			}
 			return ptc
 		})),
-	)
+	}, e.Options...)...)
 }
 
 // Reconcile runs one XR reconcile within the given run (cached == uncached == live store).
